@@ -22,7 +22,7 @@ KEYS = ("element", "aromatic", "hcount", "charge")
 DEFAULT = ("*", False, 0, 0)
 
 
-def judge_its(G, H, its, fails, ctx):
+def judge_its(G, H, its, fails, ctx, ignore_aromaticity=False):
     """content clause: union of atoms and bonds, (before, after) pair and difference on every bond"""
     nodes = set(G.nodes) | set(H.nodes)
     if set(its.nodes) != nodes:
@@ -44,8 +44,11 @@ def judge_its(G, H, its, fails, ctx):
         og = G[u][v]["order"] if G.has_edge(u, v) else 0.0
         oh = H[u][v]["order"] if H.has_edge(u, v) else 0.0
         d = its[u][v]
-        if tuple(d.get("order", ())) != (og, oh) or d.get("standard_order") != og - oh:
-            fails.append(Fail("its_edge_orders", f"{ctx}: edge {sorted(e)} order={d.get('order')} standard_order={d.get('standard_order')}", f"({og},{oh}), {og - oh}"))
+        diff = og - oh
+        if ignore_aromaticity and abs(diff) < 1:
+            diff = 0  # the flag is documented to zero small differences; the (before, after) pair stays
+        if tuple(d.get("order", ())) != (og, oh) or d.get("standard_order") != diff:
+            fails.append(Fail("its_edge_orders", f"{ctx}: edge {sorted(e)} order={d.get('order')} standard_order={d.get('standard_order')}", f"({og},{oh}), {diff}"))
             return False
     return True
 
@@ -82,11 +85,11 @@ def check_syn(case):
     one_sided = None in case["gl"] or None in case["hl"]
     for flip, rev in ((False, False), (True, True)):
         G, H = fam.build(case, flip=flip, edge_order_reversed=rev)
-        for bal in (False, True):
-            its = ITSConstruction().ITSGraph(G, H, balance_its=bal)
+        for bal, ia in ((False, False), (True, False), (False, True), (True, True)):
+            its = ITSConstruction().ITSGraph(G, H, balance_its=bal, ignore_aromaticity=ia)
             n += 1
-            ctx = f"flip={flip} balance_its={bal}"
-            if judge_its(G, H, its, fails, ctx):
+            ctx = f"flip={flip} balance_its={bal} ignore_aromaticity={ia}"
+            if judge_its(G, H, its, fails, ctx, ignore_aromaticity=ia):
                 judge_decompose(G, H, its, fails, ctx, shared_only=one_sided)
                 n += 1
             if fails:
@@ -112,11 +115,36 @@ def iso_its(a, b):
     return rm.isomorphic(a, b, lambda x, y: strip_nb(x["typesGH"]) == strip_nb(y["typesGH"]), lambda x, y: tuple(x["order"]) == tuple(y["order"]))
 
 
+def spectators(rsmi):
+    """the reaction with a fully mapped molecule that does not take part added to both sides: H2, a proton, water"""
+    top = max(er.all_maps(rsmi))
+    r, p = er.split(rsmi)
+    out = []
+    for name, frag in (("h2", "[H:{a}][H:{b}]"), ("proton", "[H+:{a}]"), ("water", "[OH2:{a}]")):
+        f = frag.format(a=top + 1, b=top + 2)
+        out.append((name, f"{r}.{f}>>{p}.{f}"))
+    return out
+
+
 def gen_corpus(tier, seed):
     for rid, s in er.corpus_reactions():
         if not (er.is_balanced(s) and er.fully_mapped_bijective(s)):
             continue
         yield [rid, s]
+    # hand-written explicit-hydrogen reactions in the corpus style (the hydrogens that move are atoms, the others counts; writing a
+    # reaction back folds spectator hydrogen atoms by design, so the all-explicit writings are not round-trip inputs), each also with
+    # spectator molecules
+    from mc.curated import CURATED, minimal_explicit
+
+    for name, s0 in CURATED.items():
+        for style, s in (("min", minimal_explicit(s0)),):
+            if not (er.is_balanced(s) and er.fully_mapped_bijective(s)):
+                continue
+            yield [f"cur{style}#{name}", s]
+            if style == "min":
+                for sn, t in spectators(s):
+                    if er.is_balanced(t) and er.fully_mapped_bijective(t):
+                        yield [f"cur{style}+{sn}#{name}", t]
 
 
 def centre_maps(rsmi):
@@ -156,6 +184,13 @@ def check_corpus(case):
         judge_decompose(G, H, its, fails, tag, shared_only=False)
         if fails:
             break
+        if tag in ("identity", "reversal", "reverse"):
+            its_ia = ITSConstruction().ITSGraph(G, H, ignore_aromaticity=True)
+            n += 1
+            if judge_its(G, H, its_ia, fails, tag + "/ignore_aromaticity", ignore_aromaticity=True):
+                judge_decompose(G, H, its_ia, fails, tag + "/ignore_aromaticity", shared_only=False)
+            if fails:
+                break
         out = its_to_rsmi(its)
         n += 1
         if not out:
